@@ -164,9 +164,10 @@ struct Expect
   std::vector<LL> want;   // n values (UNKNOWN = any)
   const T *alias = nullptr;  // data() must be exactly this (non-owning views, n > 0)
   bool must_be_null = false; // after default construction / reset(): data() == nullptr
-  bool touched = true;       // the last operation of the history involved this wrapper: at() is probed at
-                             // size, size+1 and SIZE_MAX; otherwise at size only (a throw costs ~6 us under
-                             // ASan, and the wrapper was probed fully in the shorter history that touched it)
+  bool touched = true;       // the last operation of the history involved this wrapper: only then is at()
+                             // probed (at size, size+1 and SIZE_MAX).  A throw costs ~6 us under ASan, and a
+                             // wrapper the last operation did not involve was probed in the shorter history
+                             // that ended with the operation that did; its size() is still compared.
 };
 
 struct Checker
@@ -209,8 +210,7 @@ struct Checker
       fail(e.kind, e.role, "size() differs from the model", who + ": size() = " + std::to_string(sz) + " want " + std::to_string(e.n));
       return;  // everything below depends on the size
     }
-    if ((bool)w != (e.n != 0))
-      fail(e.kind, e.role, "operator bool disagrees with size()", who);
+    mix((bool)w);  // operator bool / operator T* are not part of the statement: observed, not judged
     if (e.n > 0 && !d)
       fail(e.kind, e.role, "data() is null although size() > 0", who);
     if (e.must_be_null && d)
@@ -219,11 +219,11 @@ struct Checker
       fail(e.kind, e.role, "data() does not alias the source", who + ": data() is " + std::to_string((LL)(d - e.alias)) + " elements away from the source pointer");
       return;
     }
-    if (w.begin() != d || w.end() != d + sz || w.cbegin() != d || w.cend() != d + sz || (T *)w != d)
-      fail(e.kind, e.role, "begin()/end()/cbegin()/cend()/operator T* inconsistent with data()/size()", who);
+    if (w.begin() != d || w.end() != d + sz || w.cbegin() != d || w.cend() != d + sz)
+      fail(e.kind, e.role, "begin()/end()/cbegin()/cend() inconsistent with data()/size()", who);
     // at(i) throws exactly for i >= size
     const size_t beyond[3] = {sz, sz + 1, ~(size_t)0};
-    for (int bi = 0; bi < (e.touched || verbose ? 3 : 1); bi++) {
+    for (int bi = 0; bi < (e.touched || verbose ? 3 : 0); bi++) {
       const size_t i = beyond[bi];
       bool threw = false;
       try {
